@@ -1,11 +1,208 @@
-"""placeholder until the variant battery is built"""
+"""variant battery of the thorough tier (DESIGN §6): tests the *checker*, never turns into a verdict about /repo.
+
+Variants are computed on scratch copies of /repo/src/ngo (under $TMPDIR, removed immediately):
+  neutral  - behaviour-preserving rewrites of the whole package (ast round trip, renaming of local variables, ...):
+             every check must stay silent (no VIOLATION, no ANALYSIS-ERROR beyond the clean tree's output);
+  breaking - the confirmed seeded changes under /verif/seeded (patch.diff): the check of the seeded property must fire.
+Results go into the evidence (`selftest`)."""
+
 from __future__ import annotations
+
+import ast
+import json
+import os
+import shutil
+import subprocess
+import sys
+import tempfile
+from concurrent.futures import ThreadPoolExecutor
+from typing import Callable, Optional
+
+VERIF = os.path.dirname(os.path.dirname(os.path.abspath(__file__)))
+REPO = os.environ.get("NGOSA_REPO", "/repo")
+
+
+# ------------------------------------------------------------------------------------------------ neutral rewrites
+def n_unparse(src: str, path: str) -> str:
+    """ast round trip: drops comments, normalises layout, quotes and parentheses"""
+    return ast.unparse(ast.parse(src)) + "\n"
+
+
+class _Renamer(ast.NodeTransformer):
+    """rename the local variables of every function (not parameters, not names declared global)"""
+
+    def __init__(self, suffix: str):
+        self.suffix = suffix
+        self.stack: list[set[str]] = []
+
+    def _locals(self, node: ast.AST) -> set[str]:
+        params = set()
+        args = node.args  # type: ignore[attr-defined]
+        for a in args.posonlyargs + args.args + args.kwonlyargs:
+            params.add(a.arg)
+        if args.vararg:
+            params.add(args.vararg.arg)
+        if args.kwarg:
+            params.add(args.kwarg.arg)
+        assigned: set[str] = set()
+        glob: set[str] = set()
+        todo = list(node.body) if not isinstance(node, ast.Lambda) else [node.body]  # type: ignore[attr-defined]
+        while todo:
+            cur = todo.pop()
+            if isinstance(cur, (ast.FunctionDef, ast.AsyncFunctionDef, ast.ClassDef)):
+                assigned.add(cur.name)
+                continue
+            if isinstance(cur, ast.Lambda):
+                continue
+            if isinstance(cur, ast.Global):
+                glob |= set(cur.names)
+            if isinstance(cur, ast.Name) and isinstance(cur.ctx, (ast.Store, ast.Del)):
+                assigned.add(cur.id)
+            if isinstance(cur, (ast.ListComp, ast.SetComp, ast.DictComp, ast.GeneratorExp)):
+                # comprehension targets live in their own scope; renaming them consistently is fine too
+                pass
+            todo.extend(ast.iter_child_nodes(cur))
+        nested_defs = {n.name for n in ast.walk(node) if isinstance(n, (ast.FunctionDef, ast.ClassDef)) and n is not node}
+        return {n for n in assigned - params - glob - nested_defs if not n.startswith("__")}
+
+    def visit_FunctionDef(self, node: ast.FunctionDef) -> ast.AST:
+        args = node.args
+        params = {a.arg for a in args.posonlyargs + args.args + args.kwonlyargs}
+        if args.vararg:
+            params.add(args.vararg.arg)
+        if args.kwarg:
+            params.add(args.kwarg.arg)
+        node.args.defaults = [self.visit(d) for d in node.args.defaults]
+        node.args.kw_defaults = [self.visit(d) if d is not None else None for d in node.args.kw_defaults]
+        node.decorator_list = [self.visit(d) for d in node.decorator_list]
+        self.stack.append(self._locals(node) | {f"-{p}" for p in params})
+        node.body = [self.visit(b) for b in node.body]
+        self.stack.pop()
+        return node
+
+    visit_AsyncFunctionDef = visit_FunctionDef  # type: ignore[assignment]
+
+    def visit_Lambda(self, node: ast.Lambda) -> ast.AST:
+        # lambda parameters shadow outer locals
+        params = {a.arg for a in node.args.posonlyargs + node.args.args + node.args.kwonlyargs}
+        node.args.defaults = [self.visit(d) for d in node.args.defaults]  # evaluated in the enclosing scope
+        node.args.kw_defaults = [self.visit(d) if d is not None else None for d in node.args.kw_defaults]
+        self.stack.append({"<lambda>"} | {f"-{p}" for p in params})
+        node.body = self.visit(node.body)
+        self.stack.pop()
+        return node
+
+    def _rename(self, name: str) -> str:
+        for scope in reversed(self.stack):
+            if f"-{name}" in scope:
+                return name  # shadowed by a lambda parameter
+            if name in scope:
+                return name + self.suffix
+        return name
+
+    def visit_Name(self, node: ast.Name) -> ast.AST:
+        node.id = self._rename(node.id)
+        return node
+
+    def visit_Nonlocal(self, node: ast.Nonlocal) -> ast.AST:
+        node.names = [self._rename(n) for n in node.names]
+        return node
+
+
+def n_rename(src: str, path: str) -> str:
+    tree = ast.parse(src)
+    tree = _Renamer("_v").visit(tree)
+    return ast.unparse(ast.fix_missing_locations(tree)) + "\n"
+
+
+NEUTRAL: dict[str, Callable[[str, str], str]] = {"ast-roundtrip": n_unparse, "rename-locals": n_rename}
+
+
+# ------------------------------------------------------------------------------------------------ running
+def _scratch(transform: Optional[Callable[[str, str], str]] = None, patch: Optional[str] = None) -> str:
+    root = tempfile.mkdtemp(prefix="ngosa-variant-")
+    dst = os.path.join(root, "src", "ngo")
+    shutil.copytree(os.path.join(REPO, "src", "ngo"), dst, ignore=shutil.ignore_patterns("__pycache__"))
+    if transform is not None:
+        for dirpath, _dirs, files in os.walk(dst):
+            for fn in files:
+                if fn.endswith(".py"):
+                    p = os.path.join(dirpath, fn)
+                    with open(p, encoding="utf-8") as fh:
+                        src = fh.read()
+                    with open(p, "w", encoding="utf-8") as fh:
+                        fh.write(transform(src, p))
+    if patch is not None:
+        res = subprocess.run(["patch", "-s", "-p1", "-F3", "-i", patch], cwd=root, capture_output=True, text=True, check=False)
+        if res.returncode != 0:
+            shutil.rmtree(root, ignore_errors=True)
+            raise RuntimeError(f"patch does not apply: {res.stdout}{res.stderr}")
+    return root
+
+
+def _run_check(root: str, prop: str) -> tuple[int, list[str]]:
+    env = dict(os.environ)
+    env["NGOSA_REPO"] = root
+    env["NGOSA_EVIDENCE"] = os.path.join(root, "evidence")
+    env["VERIF_TIER"] = "quick"
+    res = subprocess.run([sys.executable, "-m", "ngosa.cli", prop, "--tier", "quick"], cwd=VERIF, env=env, capture_output=True, text=True, check=False)
+    lines = [l for l in res.stdout.splitlines() if l.startswith(("VIOLATION", "ANALYSIS-ERROR", "  rule "))]
+    return res.returncode, lines
 
 
 def run_battery(prop: str, rule_ids: list[str]) -> dict[str, object]:
-    return {"status": "battery not built yet", "variants": 0}
+    """neutral variants for this property + the seeds recorded for it"""
+    out: dict[str, object] = {}
+    jobs: list[tuple[str, str, Optional[Callable[[str, str], str]], Optional[str]]] = []
+    for name, fn in NEUTRAL.items():
+        jobs.append(("neutral", name, fn, None))
+    seeded = os.path.join(VERIF, "seeded")
+    for sid in sorted(os.listdir(seeded)) if os.path.isdir(seeded) else []:
+        meta_p = os.path.join(seeded, sid, "meta.json")
+        if not os.path.exists(meta_p):
+            continue
+        with open(meta_p, encoding="utf-8") as fh:
+            meta = json.load(fh)
+        if meta.get("property") == prop or prop in meta.get("also_breaks", []):
+            jobs.append(("breaking", sid, None, os.path.join(seeded, sid, "patch.diff")))
+
+    def work(job):  # type: ignore[no-untyped-def]
+        kind, name, fn, patch = job
+        try:
+            root = _scratch(fn, patch)
+        except Exception as err:  # pylint: disable=broad-exception-caught
+            return kind, name, 3, [f"variant could not be built: {err}"]
+        try:
+            rc, lines = _run_check(root, prop)
+        finally:
+            shutil.rmtree(root, ignore_errors=True)
+        return kind, name, rc, lines
+
+    with ThreadPoolExecutor(max_workers=min(12, max(1, len(jobs)))) as pool:
+        results = list(pool.map(work, jobs))
+    neutral = {name: {"exit": rc, "silent": rc == 0, "report": lines[:4]} for kind, name, rc, lines in results if kind == "neutral"}
+    breaking = {name: {"exit": rc, "detected": rc == 1, "report": [l for l in lines if l.startswith("  rule ")][:2]} for kind, name, rc, lines in results if kind == "breaking"}
+    out["neutral_variants"] = neutral
+    out["neutral_silent"] = sum(1 for v in neutral.values() if v["silent"])
+    out["neutral_total"] = len(neutral)
+    out["seeded_variants"] = breaking
+    out["variants_detected"] = sum(1 for v in breaking.values() if v["detected"])
+    out["variants_missed"] = sum(1 for v in breaking.values() if not v["detected"])
+    out["note"] = "the battery measures the checker; it never produces a VIOLATION for /repo"
+    return out
 
 
 def main(argv: list[str]) -> int:
-    print("battery not built yet")
-    return 0
+    props = argv or [c["property_id"] for c in json.load(open(os.path.join(VERIF, "MANIFEST.json"), encoding="utf-8"))["checks"]]
+    bad = 0
+    for prop in props:
+        res = run_battery(prop, [])
+        print(prop, "neutral silent", res["neutral_silent"], "/", res["neutral_total"], "| seeds detected", res["variants_detected"], "missed", res["variants_missed"])
+        for name, v in res["neutral_variants"].items():  # type: ignore[union-attr]
+            if not v["silent"]:
+                bad += 1
+                print("   NOT SILENT on", name, v["exit"], v["report"])
+        for name, v in res["seeded_variants"].items():  # type: ignore[union-attr]
+            if not v["detected"]:
+                print("   MISSED", name, v["exit"])
+    return 1 if bad else 0
